@@ -398,6 +398,29 @@ def result_tests(prog, f):
     return out, n
 
 
+def narrow_masks(f):
+    """[element] for `~c` computed in a type narrower than the value it is then combined with by & (the complement is widened with
+    zero bits, so the mask also clears the whole upper part: `n & ~7U` with a 64-bit n keeps 32 bits of it)."""
+    u = f.unit
+    out = []
+    n = 0
+    for e in f.all_elems():
+        if e.cls == "BinaryOperator" and e.op in ("&", "&="):
+            n += 1
+            for k in (e.kid(0), e.kid(1)):
+                if k is None or k.cls != "ImplicitCastExpr" or k.op != "IntegralCast":
+                    continue
+                inner = k.kid(0)
+                while inner is not None and inner.cls == "ParenExpr":
+                    inner = inner.kid(0)
+                if inner is None or inner.cls != "UnaryOperator" or inner.op != "~":
+                    continue
+                wt, nt = u.types.get(k.ty) or {}, u.types.get(inner.ty) or {}
+                if (wt.get("size") or 0) > (nt.get("size") or 0) and nt.get("signed") is False:
+                    out.append(e)
+    return out, n
+
+
 def apply(rep, pid, files, tier):
     """Run the reference rules on the .c files among `files` that are library units."""
     from . import cdb as _cdb
@@ -441,6 +464,17 @@ def apply(rep, pid, files, tier):
                                 % name, function=f.name, construct="uninit:" + name)
                     if not bad:
                         rep.ok("UNINIT", "%s: every read of a local follows an assignment to it" % f.name, f.loc, "%d reads" % nreads)
+            # MASKWIDTH (no reference needed)
+            if f.file == up or f.file in files:
+                bad, nm_ = narrow_masks(f)
+                if nm_:
+                    n += 1
+                    for e in bad:
+                        rep.bad("MASKWIDTH", "%s: `%s`" % (f.name, e.text[:50]), e.where,
+                                "the complement is computed in an unsigned type narrower than the value it masks and is widened with zero bits: "
+                                "the mask clears the upper half of the value as well (lengths of 4 GiB and more are cut down)", function=f.name, construct="narrow-mask")
+                    if not bad:
+                        rep.ok("MASKWIDTH", "%s: no complement mask narrower than the value it is applied to" % f.name, f.loc, "%d masks" % nm_)
             # RESULT-TEST (no reference needed)
             if f.file == up or f.file in files:
                 bad, nt = result_tests(prog, f)
